@@ -8,12 +8,13 @@
 package gocql
 
 import (
-	"time"
-	"sync/atomic"
 	"fmt"
+	"github.com/gocql/gocql/internal/lru"
 	"sort"
 	"strings"
+	"sync/atomic"
 	"testing"
+	"time"
 
 	"pgregory.net/rapid"
 	"verif.local/cqlspec"
@@ -417,6 +418,55 @@ func vxC10Run(c *vxC10Case, k *vstats.Case) error {
 			}
 		}
 		k.Class("shuffled picks checked")
+
+		// a statement on a table of another keyspace than the session's: a real Query learns its keyspace from the
+		// PREPARED metadata (here: the session's routing-key cache, as a PREPARE leaves it) while its routing key
+		// is computed; the replicas offered first are those of the statement's keyspace
+		if !c.NTS && c.RF >= 1 && len(hosts) >= 2 {
+			rf2 := c.RF%len(hosts) + 1
+			if rf2 == c.RF {
+				rf2 = 1
+			}
+			ks2 := &KeyspaceMetadata{Name: "ks2", StrategyClass: "SimpleStrategy", StrategyOptions: map[string]interface{}{"class": "SimpleStrategy", "replication_factor": rf2}}
+			kp := TokenAwareHostPolicy(RoundRobinHostPolicy()).(*tokenAwareHostPolicy)
+			kp.getKeyspaceName = func() string { return "ks" }
+			kp.getKeyspaceMetadata = func(name string) (*KeyspaceMetadata, error) {
+				if name == "ks2" {
+					return ks2, nil
+				}
+				return ks, nil
+			}
+			kp.logger = nopLogger{}
+			kp.SetPartitioner(vxPartNames[c.Part])
+			kp.AddHosts(hosts)
+			kp.KeyspaceChanged(KeyspaceUpdateEvent{Keyspace: "ks2"})
+			sess := &Session{}
+			sess.cfg.Keyspace = "ks"
+			sess.routingKeyInfoCache.lru = lru.New(4)
+			const stmt = "SELECT v FROM ks2.t WHERE k = ?"
+			sess.routingKeyInfoCache.lru.Add(stmt, &inflightCachedEntry{value: &routingKeyInfo{indexes: []int{0}, types: []TypeInfo{NativeType{typ: TypeBlob, proto: 4}}, keyspace: "ks2", table: "t"}})
+			for r := 0; r < vxRanks; r++ {
+				want := cqlspec.SimpleReplicas(ring, rf2, int64(r))
+				other := cqlspec.SimpleReplicas(ring, c.RF, int64(r))
+				if len(want) == 0 || cqlspec.SameSet(want, other) {
+					continue
+				}
+				fresh := sess.Query(stmt, []byte(vxTokenString(c.Part, r))) // a new Query object: its first Pick
+				it := kp.Pick(fresh)
+				var offered []string
+				for i := 0; i < len(want); i++ {
+					sh := it()
+					if sh == nil || sh.Info() == nil {
+						break
+					}
+					offered = append(offered, sh.Info().hostId)
+				}
+				if !cqlspec.SameSet(offered, want) {
+					return fmt.Errorf("statement on keyspace ks2 (rf %d) in a session on keyspace ks (rf %d), token rank %d: the first pick of a fresh Query offers %v first, the replicas in ks2 are %v (in ks: %v)", rf2, c.RF, r, offered, want, other)
+				}
+				k.Class("statement keyspace differs from the session keyspace")
+			}
+		}
 
 		// history: a node leaves while the keyspace metadata cannot be read (control connection down, schema
 		// table unreadable): the policy has no placement to offer then, but what it offers must be taken from
